@@ -47,6 +47,9 @@ def main():
     tier = ck.tier
     quick = tier == "quick"
     rnd = random.Random(ck.seed)
+    for fn in os.listdir(ck.wd):  # nothing stale: replay / trace files of earlier runs
+        if fn.startswith(("violation-", "trace-")) and fn.endswith(".json"):
+            os.remove(os.path.join(ck.wd, fn))
     data_wd = os.path.join(ck.wd, "data")
     shutil.rmtree(data_wd, ignore_errors=True)
     os.makedirs(data_wd)
